@@ -444,8 +444,10 @@ impl Bucket {
     fn update_state(&mut self) {
         let now = time::Instant::now();
         // div safety: self.refill_period.as_millis() is checked to be non-null in constructor
-        let refill_periods = now.saturating_duration_since(self.last_fill).as_millis() as u32
-            / self.refill_period.as_millis() as u32;
+        let refill_periods = now.saturating_duration_since(self.last_fill).as_millis()
+            / self.refill_period.as_millis();
+        // More than `u32::MAX` elapsed periods are counted as `u32::MAX`.
+        let refill_periods = u32::try_from(refill_periods).unwrap_or(u32::MAX);
         if refill_periods == 0 {
             // Nothing to do - we won't refill yet
             return;
